@@ -142,7 +142,7 @@ InvState == phase # "compose" => StateOK(S, REG)
 InvConserved == (phase # "compose" /\ AllNonReg /\ NoManual /\ ~flagged) => Conserved(A, S)
 
 \* C02/C03 on the last processed sale
-SumAdj(adj) == SumSet(adj, LAMBDA x : x.amt)
+SumAdj(adj) == RSumOver(adj, LAMBDA x : x.amt)
 InvSfl ==
   (last.kind = "step" /\ last.ok /\ last.superficial) =>
      /\ RNegative(last.raw) /\ ~RPos(last.sfl)
@@ -166,6 +166,77 @@ InvReject ==
   (last.kind = "step" /\ ~last.ok) =>
      last.why \in {"oversell", "roc-registered", "roc-exceeds-acb", "sfla-registered", "split-fraction",
                    "sfl-without-loss", "sfl-mismatch", "oversell-in-window"}
+
+(***************************************************************************)
+(* Relational properties of the rules, checked once per completed history. *)
+(***************************************************************************)
+\* the complete run of a row list from a start state: the sequence of step results (it stops
+\* after the first rejected row)
+RECURSIVE RunFrom(_, _, _)
+RunFrom(R0, S0, k) ==
+  IF k > Len(R0) THEN <<>>
+  ELSE LET s == StepAll(S0, REG, R0, k)
+       IN  IF s.ok THEN <<s>> \o RunFrom(R0, s.S, k + 1) ELSE <<s>>
+RunAll(R0, S0) == RunFrom(R0, S0, 1)
+
+\* C16: an opening position equals a purchase by the default affiliate of that many shares for that
+\* total cost (amount/share 0, commission = cost) dated more than 30 days before the first row
+OpeningBuy ==
+  [act |-> "Buy", af |-> DefaultAf, sd |-> BaseDay - 40, td |-> BaseDay - 40, idx |-> -1,
+   q |-> P(open[1]), p |-> RZero, c |-> P(open[2]), r |-> ROne, rc |-> ROne,
+   hasSfl |-> FALSE, sflv |-> RZero, force |-> FALSE, post |-> ROne, pre |-> ROne, intOnly |-> FALSE, grp |-> FALSE]
+SameStep(x, y) ==
+  /\ x.ok = y.ok /\ x.S = y.S /\ x.hasGain = y.hasGain /\ x.gain = y.gain /\ x.sfl = y.sfl
+  /\ x.superficial = y.superficial /\ x.adj = y.adj /\ x.over = y.over
+InvOpeningEquiv ==
+  (phase = "done" /\ open # <<>> /\ ~RIsZero(P(open[1]))) =>
+     LET a == RunAll(R, StartState)
+         b == RunAll(Prepare(<<OpeningBuy>> \o RowsOf(hist), FALSE), InitState(AFS))
+     IN  /\ Len(b) = Len(a) + 1 /\ b[1].ok
+         /\ \A n \in DOMAIN a : SameStep(a[n], b[n + 1])
+
+\* C15: inserting a post-for-pre split (for all affiliates, or one row per affiliate) before row k
+\* and restating every later share quantity times post/pre and every later per-share amount
+\* divided by post/pre changes no gain, no superficial loss and no total cost base; share counts
+\* scale.  Checked for every position and every ratio in SplitRatios.
+CONSTANT SplitRatios            \* set of <<post, pre>> integer pairs
+ScaleRow(t, f) ==
+  CASE t.act \in {"Buy", "Sell"} -> [t EXCEPT !.q = RMul(@, f), !.p = RDiv(@, f)]
+    [] t.act = "Roc"  -> [t EXCEPT !.p = RDiv(@, f)]
+    [] t.act = "Sfla" -> [t EXCEPT !.q = RMul(@, f), !.p = RDiv(@, f)]
+    [] OTHER -> t
+SplitRowAt(sd, idx, af, post, pre) ==
+  [act |-> "Split", af |-> af, sd |-> sd, td |-> sd, idx |-> idx, q |-> RZero, p |-> RZero, c |-> RZero,
+   r |-> ROne, rc |-> ROne, hasSfl |-> FALSE, sflv |-> RZero, force |-> FALSE,
+   post |-> RN(post), pre |-> RN(pre), intOnly |-> FALSE, grp |-> FALSE]
+\* rows 1..k-1 unchanged, split rows (one for all affiliates, or one per affiliate in afsq), rows k.. restated
+WithSplit(rows, k, post, pre, perAff) ==
+  LET f  == RFrac(post, pre)
+      sd == IF k <= Len(rows) THEN rows[k].sd ELSE rows[Len(rows)].sd
+      hd == SubSeq(rows, 1, k - 1)
+      tl == [n \in 1..(Len(rows) - k + 1) |-> ScaleRow(rows[k + n - 1], f)]
+      targets == SetSeq(SplitTargets(rows, open # <<>>))
+      sp == IF perAff THEN [n \in 1..Len(targets) |-> SplitRowAt(sd, 0, targets[n], post, pre)]
+            ELSE <<SplitRowAt(sd, 0, GlobalAf, post, pre)>>
+      all == hd \o sp \o tl
+  IN  [n \in DOMAIN all |-> [all[n] EXCEPT !.idx = n]]
+IsSplitRow(t) == t.act = "Split"
+NonSplitSteps(run, R0) == SelectSeq([n \in DOMAIN run |-> [s |-> run[n], t |-> R0[n]]], LAMBDA x : ~IsSplitRow(x.t))
+InvSplitNeutral ==
+  (phase = "done" /\ \A n \in DOMAIN hist : hist[n].t.act # "Split" /\ hist[n].t.sflc = "") =>
+     LET base == RowsOf(hist)
+         a == RunAll(R, StartState)
+     IN  \A k \in 1..(Len(base) + 1), sr \in SplitRatios, perAff \in BOOLEAN :
+           LET Rb == Prepare(WithSplit(base, k, sr[1], sr[2], perAff), open # <<>>)
+               b  == NonSplitSteps(RunAll(Rb, StartState), Rb)
+               f  == RFrac(sr[1], sr[2])
+           IN  /\ Len(b) = Len(a)
+               /\ \A n \in DOMAIN a :
+                     /\ a[n].ok = b[n].s.ok /\ a[n].hasGain = b[n].s.hasGain
+                     /\ a[n].gain = b[n].s.gain /\ a[n].sfl = b[n].s.sfl
+                     /\ a[n].superficial = b[n].s.superficial /\ a[n].adj = b[n].s.adj
+                     /\ a[n].S.acb = b[n].s.S.acb
+                     /\ \A af \in AFS : b[n].s.S.sh[af] = IF n >= k THEN RMul(a[n].S.sh[af], f) ELSE a[n].S.sh[af]
 
 (***************************************************************************)
 (* Emission of completed histories as cases for the conformance harness.   *)
